@@ -4,9 +4,10 @@ import ErrModel.Basic.RedactT
   `EscapeBytes` and `Sprintf` (as modelled in Basic/RedactT.lean) produce well-formed strings.
 
   `lw st t` scans `t` from the state `st` ("inside a pair of markers?"): an open marker is only
-  legal outside, a close marker and a newline... a close marker only inside, a newline only
-  outside.  `LW t`: starts and ends outside.  This is "markers balanced, never nested, and
-  balanced within every line".
+  legal outside, a close marker only inside, a newline only outside, and a byte labelled UNSAFE
+  (`Tok.u`) only inside.  `LW t`: starts and ends outside.  This is "markers balanced, never
+  nested, balanced within every line" (C06) together with "what was written from an unsafe
+  source is enclosed" (C03).
 -/
 namespace ErrModel
 
@@ -15,6 +16,7 @@ def lw : Bool → Toks → Option Bool
   | st, .op :: r => if st then none else lw true r
   | st, .cl :: r => if st then lw false r else none
   | st, .b c :: r => if c = nl && st then none else lw st r
+  | st, .u c :: r => if st && c ≠ nl then lw st r else none   -- an unsafe byte is only legal inside
 
 def LW (t : Toks) : Prop := lw false t = some false
 
@@ -26,6 +28,7 @@ theorem lw_append (st : Bool) (a b : Toks) : lw st (a ++ b) = (lw st a).bind (fu
     | op => cases st <;> simp [lw, ih]
     | cl => cases st <;> simp [lw, ih]
     | b c => simp only [List.cons_append, lw]; split <;> simp [ih]
+    | u c => simp only [List.cons_append, lw]; split <;> simp [ih]
 
 theorem LW_append {a b : Toks} (ha : LW a) (hb : LW b) : LW (a ++ b) := by
   unfold LW at *; rw [lw_append, ha]; simpa using hb
@@ -171,7 +174,7 @@ theorem RBT.Inv_preT (r : RBT) (h : r.Inv) (t : Toks) (ht : LW t) : (r.seg (.pre
     simp [f2, hc]
     rw [lw_append, he]; exact ht
 
-theorem RBT.Inv_pre (r : RBT) (h : r.Inv) (s : Str) (hs : LW (lex s)) : (r.seg (.pre s)).Inv := by
+theorem RBT.Inv_pre (r : RBT) (h : r.Inv) (s : Str) (hs : LW (lexL s)) : (r.seg (.pre s)).Inv := by
   obtain ⟨hm, hc, hl⟩ := h
   have he := RBT.escapeToEnd_closed r hl
   obtain ⟨f1, f2, f3⟩ := RBT.escapeToEnd_fields r false
@@ -236,7 +239,7 @@ theorem RBT.Inv_init : (RBT.reset.setMode .safeE).Inv := by
 def SegT.ok : SegT → Prop
   | .lit _ => True
   | .arg _ => True
-  | .pre s => LW (lex s)
+  | .pre s => LW (lexL s)
   | .preT t => LW t
 
 theorem RBT.Inv_seg (r : RBT) (h : r.Inv) (g : SegT) (hg : g.ok) : (r.seg g).Inv := by
@@ -270,20 +273,51 @@ namespace ErrModel
 
 /-! ### Redact keeps a well-formed string well-formed -/
 
-theorem spanBytes_spec (t : Toks) : t = bytesT (spanBytes t).1 ++ (spanBytes t).2 ∧
-    (∀ x, (spanBytes t).2.head? = some x → ∀ c, x ≠ Tok.b c) := by
+/-- a list of byte tokens (safe or unsafe-labelled) -/
+def IsBytes (t : Toks) : Prop := ∀ x ∈ t, (∃ c, x = Tok.b c) ∨ (∃ c, x = Tok.u c)
+
+/-- the byte-token prefix that `spanBytes` consumes -/
+def spanPre : Toks → Toks
+  | .b x :: r => .b x :: spanPre r
+  | .u x :: r => .u x :: spanPre r
+  | _ => []
+
+theorem spanBytes_spec (t : Toks) : t = spanPre t ++ (spanBytes t).2 ∧ IsBytes (spanPre t) ∧
+    (∀ x, (spanBytes t).2.head? = some x → (∀ c, x ≠ Tok.b c) ∧ (∀ c, x ≠ Tok.u c)) := by
   induction t with
-  | nil => simp [spanBytes, bytesT]
+  | nil => simp [spanBytes, spanPre, IsBytes]
   | cons a r ih =>
     cases a with
-    | op => simp [spanBytes, bytesT]
-    | cl => simp [spanBytes, bytesT]
+    | op => simp [spanBytes, spanPre, IsBytes]
+    | cl => simp [spanBytes, spanPre, IsBytes]
     | b x =>
-      obtain ⟨h1, h2⟩ := ih
-      simp only [spanBytes]
-      refine ⟨?_, h2⟩
-      simp only [bytesT, List.map_cons, List.cons_append]
-      congr 1
+      obtain ⟨h1, h2, h3⟩ := ih
+      simp only [spanBytes, spanPre]
+      refine ⟨by simp only [List.cons_append]; congr 1, ?_, h3⟩
+      intro y hy; rcases List.mem_cons.mp hy with rfl | hy
+      · exact Or.inl ⟨x, rfl⟩
+      · exact h2 y hy
+    | u x =>
+      obtain ⟨h1, h2, h3⟩ := ih
+      simp only [spanBytes, spanPre]
+      refine ⟨by simp only [List.cons_append]; congr 1, ?_, h3⟩
+      intro y hy; rcases List.mem_cons.mp hy with rfl | hy
+      · exact Or.inr ⟨x, rfl⟩
+      · exact h2 y hy
+
+/-- byte tokens never change the state -/
+theorem lw_isBytes_state (st st' : Bool) (t : Toks) (ht : IsBytes t) (h : lw st t = some st') : st' = st := by
+  induction t with
+  | nil => simp [lw] at h; exact h.symm
+  | cons x r ih =>
+    have hr : IsBytes r := fun y hy => ht y (by simp [hy])
+    rcases ht x (by simp) with ⟨c, rfl⟩ | ⟨c, rfl⟩
+    · simp only [lw] at h; split at h
+      · simp at h
+      · exact ih hr h
+    · simp only [lw] at h; split at h
+      · exact ih hr h
+      · simp at h
 
 theorem redactedT_lw : lw false redactedT = some false := by decide
 
@@ -304,14 +338,14 @@ theorem LW_redactT (t : Toks) : LW t → LW (redactT t) := by
   | case1 => intro h; exact h
   | case2 r bs r' hsp _ ih =>
     intro h
-    obtain ⟨hspec, _⟩ := spanBytes_spec r
+    obtain ⟨hspec, hby, _⟩ := spanBytes_spec r
     rw [hsp] at hspec
     simp only [lw, Bool.false_eq_true, if_false] at h
     rw [hspec, lw_append] at h
-    cases hb : lw true (bytesT bs) with
+    cases hb : lw true (spanPre r) with
     | none => rw [hb] at h; simp at h
     | some s1 =>
-      have := lw_bytes_state true s1 bs hb
+      have := lw_isBytes_state true s1 _ hby hb
       subst this
       rw [hb] at h
       simp [lw] at h
@@ -320,13 +354,13 @@ theorem LW_redactT (t : Toks) : LW t → LW (redactT t) := by
   | case3 r hno ih =>
     intro h
     exfalso
-    obtain ⟨hspec, hhead⟩ := spanBytes_spec r
+    obtain ⟨hspec, hby, hhead⟩ := spanBytes_spec r
     simp only [lw, Bool.false_eq_true, if_false] at h
     rw [hspec, lw_append] at h
-    cases hb : lw true (bytesT (spanBytes r).1) with
+    cases hb : lw true (spanPre r) with
     | none => rw [hb] at h; simp at h
     | some s1 =>
-      have := lw_bytes_state true s1 _ hb
+      have := lw_isBytes_state true s1 _ hby hb
       subst this
       rw [hb] at h
       simp only [Option.bind_some] at h
@@ -337,7 +371,8 @@ theorem LW_redactT (t : Toks) : LW t → LW (redactT t) := by
         cases x with
         | op => simp [lw] at h
         | cl => exact hno (spanBytes r).1 rest (by rw [← hr])
-        | b c => exact hhead (.b c) (by rw [hr]; rfl) c rfl
+        | b c => exact (hhead (.b c) (by rw [hr]; rfl)).1 c rfl
+        | u c => exact (hhead (.u c) (by rw [hr]; rfl)).2 c rfl
   | case4 r ih =>
     intro h
     simp [lw] at h
@@ -345,5 +380,8 @@ theorem LW_redactT (t : Toks) : LW t → LW (redactT t) := by
     intro h
     simp only [lw, Bool.and_false, Bool.false_eq_true, if_false] at h ⊢
     exact ih h
+  | case6 x r ih =>
+    intro h
+    simp [lw] at h
 
 end ErrModel
